@@ -51,6 +51,10 @@ impl Prop for C14 {
         let pos = ops.iter().rposition(|o| matches!(o, WOp::Append { .. } | WOp::Add { .. })).map(|p| p + 1).unwrap_or(ops.len());
         ops.insert(pos, WOp::Flush);
         let mut case = Case::new("C14", cfg, ops);
+        // the destination may also split and interrupt transfers while flushes happen
+        if !big && rng.chance(1, 3) {
+            case.sink = crate::seams::Sched::make(&mut rng, true);
+        }
         case.params.insert("later_seed".into(), (rng.u64() >> 1) as i64);
         case
     }
